@@ -287,6 +287,13 @@ def systematic_corner():
         out.append(case(Fw, cross(full, X, [K("AtMostKInARow", k=1, f=3, l=0)]), "B", ["weights-uncrossed", "whole-factor-derived", xn], "cor-wu-%s-atmostd-whole" % xn))
         out.append(case(Fw, cross(full, X, [K("AtLeastKInARow", k=2, f=3, l=0)]), "B", ["weights-uncrossed", "whole-factor-derived", xn], "cor-wu-%s-atleastd-whole" % xn))
     out.append(case(Fw, cross([1, 2], [1], [K("MinimumTrials", k=3)]), "B", ["weights-uncrossed", "MinimumTrials"], "cor-wu-min3"))
+    # a weighted derived level whose factor depends on a weighted uncrossed (desugared) factor keeps its weight (FX24)
+    Fdw = [basic("a", 2, [2, 1]), basic("b", 2)]
+    Fdw.append(derived(Fdw, "d", [1, 2], "within", table=eq_table(Fdw, [1, 2]), w=[2, 1]))
+    out.append(case(Fdw, cross([1, 2, 3], [3]), "B", ["weights-uncrossed", "weighted-derived-level", "crossed"], "cor-wu-dweight-x3"))
+    out.append(case(Fdw, cross([1, 2, 3], [2, 3]), "B", ["weights-uncrossed", "weighted-derived-level", "crossed"], "cor-wu-dweight-x23"))
+    out.append(case(Fdw, cross([1, 2, 3], [2], [K("MinimumTrials", k=3)]), "B", ["weights-uncrossed", "weighted-derived-level", "implied"],
+                    "cor-wu-dweight-implied"))
     # Pin / ExactlyK / Exclude on a Transition factor (no level at trial 0)
     for X, xn in [([1, 2], "x12"), ([1, 4], "x14"), ([1], "x1")]:
         for i in (0, 1, 2, -1):
